@@ -124,3 +124,41 @@ func GetPKI() *PKI {
 	})
 	return pki
 }
+
+var (
+	certMu    sync.Mutex
+	certCache = map[string]KeyPair{}
+)
+
+// ServerCertFor returns a server certificate of the given kind for host: "match" (trusted, SAN == host only),
+// "wronghost" (trusted, SAN other.example), "untrusted" (foreign CA, SAN == host), "expired" (trusted, SAN == host).
+func ServerCertFor(kind, host string) KeyPair {
+	p := GetPKI()
+	certMu.Lock()
+	defer certMu.Unlock()
+	key := kind + "/" + host
+	if kp, ok := certCache[key]; ok {
+		return kp
+	}
+	var dns, ips []string
+	if net.ParseIP(host) != nil {
+		ips = []string{host}
+	} else {
+		dns = []string{host}
+	}
+	var kp KeyPair
+	switch kind {
+	case "match":
+		kp = p.CA.Issue(host, dns, ips, false, false)
+	case "wronghost":
+		kp = p.CA.Issue("other.example", []string{"other.example"}, nil, false, false)
+	case "untrusted":
+		kp = p.ForeignCA.Issue(host, dns, ips, false, false)
+	case "expired":
+		kp = p.CA.Issue(host, dns, ips, false, true)
+	default:
+		panic("unknown certificate kind " + kind)
+	}
+	certCache[key] = kp
+	return kp
+}
